@@ -38,9 +38,9 @@ void zuc_eea_encrypt(const ZUC_UINT32 *in, ZUC_UINT32 *out, size_t nbits,
 	size_t i;
 
 	zuc_set_eea_key(&zuc_key, key, count, bearer, direction);
-	zuc_generate_keystream(&zuc_key, nwords, out);
+	// word by word, so that in == out (encryption in place) works
 	for (i = 0; i < nwords; i++) {
-		out[i] ^= in[i];
+		out[i] = in[i] ^ zuc_generate_keyword(&zuc_key);
 	}
 
 	if (nbits % 32 != 0) {
